@@ -29,6 +29,7 @@ func init() {
 				n += runAs(c, "C15.R6", c06Set, nil)
 				c.R.Floor("C15.R6", n, 4)
 			}},
+			{ID: "C15.R7", Doc: "read-only operations may run concurrently only if they write nothing at all: scalar wrappers are immutable after construction (= C09.R5) — a serialiser that caches its text in the wrapper is a write shared by every reader", Run: func(c *Ctx) { c09Immutable(c, "C15.R7") }},
 			{ID: "C15.R5", Doc: "PURE for every non-mutating method of both interfaces; no package-level state", Run: func(c *Ctx) {
 				names := implNames(c, func(n string) bool { return !mutatorNames[n] })
 				c.R.Floor("C15.R5", pureRule(c, "C15.R5", names), 100)
